@@ -77,8 +77,8 @@ class AstGen:
         c = r.random()
         if c < 0.2:
             nc = r.choice([0, 1, 1, 2, 2, 3])
-            rows = [self.row([self.tmpl(hdrs) for _ in range(nc)]) for _ in range(r.randint(1, 3))]
-            s["dataTable"] = {"location": rows[0]["location"], "rows": rows}
+            rows = [self.row([self.tmpl(hdrs) for _ in range(nc)]) for _ in range(r.choice([0, 1, 1, 2, 2, 3]))]     # 0 rows: only in hand-built documents
+            s["dataTable"] = {"location": rows[0]["location"] if rows else self.loc(), "rows": rows}
         elif c < 0.4:
             ds = {"location": self.loc(), "content": r.choice(["", self.tmpl(hdrs), self.tmpl(hdrs) + "\n" + self.tmpl(hdrs)]),
                   "delimiter": r.choice(['"""', "```"])}
@@ -452,3 +452,68 @@ def threaded_compile(prop, M, seed, rounds=25, nthreads=4):
         M.violation(prop + ".threads", {"what": "a Compiler working in one thread while other Compiler objects work in other threads returns other pickles than alone",
                                         "deviating_compiles": len(bad), "of": len(results),
                                         "differences": short(diff_groups(results[(t, n)][1], ref[j]), 300)}, case)
+
+
+class ReentrantGen:
+    """A caller's id generator through which, at its k-th draw, the same Compiler is asked to compile ANOTHER document
+    (a callback, a logging hook, ... ): whatever compile() keeps on the instance while it runs is overwritten."""
+
+    def __init__(self, start, k, action):
+        self.n, self.k, self.action, self.draws = start, k, action, 0
+
+    def get_next_id(self):
+        self.draws += 1
+        if self.draws == self.k:
+            self.action()
+        v = str(self.n)
+        self.n += 1
+        return v
+
+
+def _no_ids(pickles):
+    return [{k: ([{kk: vv for kk, vv in st.items() if kk != "id"} for st in v] if k == "steps" else v) for k, v in p.items() if k != "id"} for p in pickles]
+
+
+def reentrant_compile(prop, M, seed, n=40):
+    """compile(A) on a Compiler that is asked to compile(B) in the middle (from inside the id generator): A's pickles are
+    those a Compiler gives that compiles A alone, pickle ids aside."""
+    import random as _random
+    r = _random.Random("%s-reentrant-%s" % (prop, seed))
+    for _ in range(n):
+        docs = []
+        for _k in range(2):
+            d = AstGen(r, hostile_names=False).doc()
+            nx = assign_ids(d)
+            d["uri"] = "features/r.feature"
+            docs.append((d, nx))
+        (a, na), (b, nb) = docs
+        want = Compiler(generator_at(na)).compile(copy.deepcopy(a))
+        draws = 2 * sum(1 + len(p["steps"]) for p in want) or 1
+        for k in sorted({1, 2, max(1, draws // 4), max(1, draws // 2)}):
+            holder = {}
+            gen = ReentrantGen(na, k, lambda: holder["c"].compile(copy.deepcopy(b)) if not holder.get("busy") and not holder.update(busy=True) else None)
+            holder["c"] = Compiler(gen)
+            M.count("reentrant_compiles")
+            case = {"kind": "reentrant", "seed": seed}
+            try:
+                got = holder["c"].compile(copy.deepcopy(a))
+            except Exception as e:
+                M.violation(prop + ".reentrant", {"what": "compile raised when the same Compiler compiled another document in the middle", "error": repr(e)[:160]}, case)
+                continue
+            if _no_ids(got) != _no_ids(want):
+                dg = diff_groups(_renumber(got, want), want)
+                if prop in dg or len(got) != len(want):
+                    M.violation(prop + ".reentrant", {"what": "pickles of a document differ when the same Compiler compiled another document in the middle of it (%s)" % GROUPS.get(prop, prop),
+                                                      "draw": k, "differences": short(dg.get(prop), 300)}, case)
+                else:
+                    M.count("advisory.reentrant_differs_in_other_group")
+
+
+def _renumber(got, want):
+    """got with the pickle/step ids of want (same positions), so that only other fields can differ"""
+    out = copy.deepcopy(got)
+    for p, w in zip(out, want):
+        p["id"] = w.get("id")
+        for st, ws in zip(p.get("steps", []), w.get("steps", [])):
+            st["id"] = ws.get("id")
+    return out
